@@ -381,6 +381,10 @@ func (s *StubSender) RequestBlock(_ context.Context, h hotstuff.Hash) (*hotstuff
 }
 
 func (s *StubSender) Sub(ids []hotstuff.ID) (core.Sender, error) {
+	if len(ids) == 0 {
+		// as the real sender: a gorums configuration needs at least one node
+		return nil, fmt.Errorf("config: missing required node IDs")
+	}
 	return &StubSender{parent: s, sub: append([]hotstuff.ID(nil), ids...)}, nil
 }
 
